@@ -201,4 +201,26 @@ def ubx_frame_with_checksum(cls: bytes, mid: bytes, payload: bytes, target: byte
     return f
 
 
+def zero_state_payload(cls: bytes, mid: bytes, n: int, block: int, fill: int = 0x5A) -> bytes:
+    """n-byte payload such that the Fletcher-8 running sums over class, ID, length
+    and the payload so far are (0, 0) after every `block` payload bytes."""
+    import hashlib
+
+    rnd = hashlib.shake_256(bytes([fill & 0xFF, block & 0xFF])).digest(n)
+    p = bytearray(rnd)
+    a = b = 0
+    for x in cls + mid + n.to_bytes(2, "little"):
+        a = (a + x) % 256
+        b = (b + a) % 256
+    for i in range(n):
+        if (i + 2) % block == 0 and i + 1 < n:
+            # solve bytes i, i+1 so that the state after byte i+1 is (0, 0)
+            a1 = (0 - 0 - b) % 256          # need b + a1 + 0 == 0  ->  a1 = -b ; then a2 = 0
+            p[i] = (a1 - a) % 256
+            p[i + 1] = (0 - a1) % 256
+        a = (a + p[i]) % 256
+        b = (b + a) % 256
+    return bytes(p)
+
+
 MAGIC_CHECKSUMS = [b"\r\n", b"\n\r", b"\x00\x00", b"\xff\xff", b"\xb5\x62", b"$G", b"\xd3\x00", b"\n\n", b"*\r"]
